@@ -100,8 +100,14 @@ pub(crate) async fn process_system_event(
                 ep_info.peer_socket_type = peer_socket_type;
               }
 
-              // 2. Reset reconnect backoff state on successful handshake
-              if let Some(recon_state) = core_s_write.reconnect_states.get_mut(&uri) {
+              // 2. Reset reconnect backoff state on successful handshake. The back-off is keyed by
+              // the endpoint the user connected to, which differs from the session URI on ipc.
+              let recon_key = core_s_write
+                .endpoints
+                .get(&uri)
+                .and_then(|info| info.target_endpoint_uri.clone())
+                .unwrap_or_else(|| uri.clone());
+              if let Some(recon_state) = core_s_write.reconnect_states.get_mut(&recon_key) {
                 recon_state.on_connection_success();
                 tracing::trace!(handle = core_handle, uri = %uri, "Reset reconnect backoff state after success.");
               }
